@@ -130,7 +130,9 @@ def items():
         n = len(_info(key)[2]) + 1
         for op in OPS:
             for start in range(0, n, CHUNK):
-                out.append('%s:%s:%d' % (key, op, start))
+                # only windows in which the edit applies somewhere (e.g. `traildoc` needs a multi-line doc string)
+                if any(edited(key, op, k) is not None for k in range(start, min(start + CHUNK, n))):
+                    out.append('%s:%s:%d' % (key, op, start))
     return out
 
 
